@@ -3,6 +3,7 @@ import BpProofs.RtFlat
 import BpProofs.RtMain
 import BpProofs.Encodable
 import BpProofs.Props.C06
+import BpProofs.EqSound
 /-
   C01 — binary round trip: parse(bytes(m)) reproduces m for every message value.
 
@@ -45,6 +46,21 @@ import BpProofs.Props.C06
       identifies exactly three things Python's `==` identifies too: `-0.0` with `+0.0`
       inside a wrapper (the wrapper class has implicit presence), and a map VALUE message
       that encodes to nothing with the fresh instance of its class.
+    * that Python's `==` CONTAINS `ValEqv` is now a theorem, not a remark: `msgEq`
+      (BpModel/Eq.lean) is a kernel-evaluable model of `Message.__eq__` — same class, then field
+      by field over the raw slots, PLACEHOLDER on both sides skipped, PLACEHOLDER on one side
+      replaced by `_get_field_default`, then `!=` / `_equal_or_both_nan` (numeric tower on IEEE
+      bit patterns with `-0.0 == 0.0` and the both-NaN rule, lists item-wise, dicts as unordered
+      maps, nested messages recursively; unknown fields, `_serialized_on_wire` and the oneof
+      selection are not compared) — run against the real `==` by the driver command `EQ`, and
+      `valEqv_msgEq` (BpProofs/EqSound.lean) proves `MsgOk S m → ValEqv S m m' →
+      msgEq S m m' = true ∧ msgEq S m' m = true` with NO hypothesis on `m'` (per constructor:
+      `refl` needs the both-NaN rule and, for dicts, pairwise different self-equal keys;
+      `consFresh` / `emptyMsg` need "a well-typed slot that emits no byte equals the slot of a
+      fresh instance": `slot_default`, by induction through unmarked sub-messages). No
+      counterexample: the containment holds on all of `MsgOk`. Hence `roundtrip_equal` /
+      `roundtrip_equal_total` below — C01 as the property states it: decoding the encoding of
+      `m` yields a message EQUAL to `m` (`m == m'` and `m' == m`) that encodes to the same bytes.
     * encodability (`encodable`, BpProofs/Encodable.lean): EVERY `MsgOk` value can be encoded —
       `dumpVal` returns `.ok`, unconditionally (no side condition, no counterexample: no
       branch of the encoder fails on a well-typed slot, whatever `hid` / `sel`; an unset slot
@@ -252,7 +268,79 @@ example : dumpVal SX mX = .ok [8, 249, 255, 255, 255, 255, 255, 255, 255, 255, 1
 example : (parse SX 0 [8, 249, 255, 255, 255, 255, 255, 255, 255, 255, 1, 18, 0, 34, 0, 42, 3, 1, 172, 2]).bind (dumpVal SX)
     = .ok [8, 249, 255, 255, 255, 255, 255, 255, 255, 255, 1, 18, 0, 34, 0, 42, 3, 1, 172, 2] := by decide
 
+/-- **C01 with Python's `==`**: for every well-typed message value `m` of class `c` whose
+    encoding `bs` is shorter than 2^64 bytes, `Cls().parse(bs)` succeeds with a message `m'` such
+    that `m == m'` and `m' == m` (`msgEq`, BpModel/Eq.lean: `Message.__eq__`) and `bytes(m') = bs` -/
+theorem roundtrip_equal (S : Schema) (c : Nat) (sl : List Val) (ow : Bool) (unk : Bytes) (cur : List (Option Nat))
+    (hm : MsgOk S (.msg c sl ow unk cur))
+    (bs : Bytes) (hdump : dumpVal S (.msg c sl ow unk cur) = .ok bs) (hbl : bs.length < 2 ^ 64) :
+    ∃ m', parse S c bs = .ok m' ∧ msgEq S (.msg c sl ow unk cur) m' = true ∧ msgEq S m' (.msg c sl ow unk cur) = true
+      ∧ dumpVal S m' = .ok bs := by
+  obtain ⟨d, hd, _⟩ := EqS.msgOk_slotsT S c sl ow unk cur hm
+  obtain ⟨sl', h1, h2, h3⟩ := roundtrip_nested_partial S c d hd sl ow unk cur hm bs hdump hbl
+  obtain ⟨e1, e2⟩ := valEqv_msgEq S _ _ hm h2
+  exact ⟨_, h1, e1, e2, h3⟩
+
+/-- … without an encoding hypothesis: the encoding exists (`encodable`), and if it is shorter than
+    2^64 bytes it parses back to a message equal to `m` under `==`, with the same encoding -/
+theorem roundtrip_equal_total (S : Schema) (c : Nat) (sl : List Val) (ow : Bool) (unk : Bytes) (cur : List (Option Nat))
+    (hm : MsgOk S (.msg c sl ow unk cur)) :
+    ∃ bs, dumpVal S (.msg c sl ow unk cur) = .ok bs ∧
+      (bs.length < 2 ^ 64 → ∃ m', parse S c bs = .ok m' ∧ msgEq S (.msg c sl ow unk cur) m' = true
+        ∧ msgEq S m' (.msg c sl ow unk cur) = true ∧ dumpVal S m' = .ok bs) := by
+  obtain ⟨bs, hbs⟩ := encodable S _ hm
+  exact ⟨bs, hbs, fun hbl => roundtrip_equal S c sl ow unk cur hm bs hbs hbl⟩
+
+/-! non-vacuity of the equality statement (the instance of `roundtrip_equal` on `Bp.OkEx.mEx` needs
+    `msgOkB_sound`, BpProofs/OkSound.lean, which imports this file: it cannot be stated here).
+    `SQ`: `Sub {int32 x}`, `Top {float f; double d; Sub s; map<int32, Sub> m; FloatValue w;
+    map<string, float> mf; Timestamp t; optional string o}`. `mQ` is accepted by the checker of the
+    theorem's domain, and its decoded copy differs from it in every way `ValEqv` allows — `f = -0.0`,
+    `s = Sub(x=0)` (unmarked) and `t = epoch` emit no byte and come back unset (`consFresh`); the
+    wrapped `-0.0` comes back `+0.0` (`negZero32`); the map value `Sub(x=0)` comes back as a fresh
+    `Sub()` (`emptyMsg`); `d` is a NaN (unequal to itself under plain `==`) — and still `mQ == m'`
+    and `m' == mQ`.  `msgEq` is not trivially true (last three examples). -/
+def subQ : MsgD := { fields := [{ name := "x", num := 1, ty := .int32 }] }
+def topQ : MsgD :=
+  { fields := [{ name := "f", num := 1, ty := .float },
+               { name := "d", num := 2, ty := .double },
+               { name := "s", num := 3, ty := .message, kind := .user 0 },
+               { name := "m", num := 4, ty := .map, mapK := .int32, mapV := .message, mapVKind := .user 0 },
+               { name := "w", num := 5, ty := .message, kind := .user 2, wraps := some .float },
+               { name := "mf", num := 6, ty := .map, mapK := .string, mapV := .float },
+               { name := "t", num := 7, ty := .message, kind := .timestamp },
+               { name := "o", num := 8, ty := .string, optional := true }] }
+def SQ : Schema := [subQ, topQ, wrapperD .float]
+def mQ : Val := .msg 1
+  [.f32 0x80000000, .f64 0x7ff8000000000001, .msg 0 [.int 0] false [] [],
+   .dict [.int 1, .int 2] [.msg 0 [.int 0] false [] [], .msg 0 [.int 7] false [] []],
+   .f32 0x80000000, .dict [.str [97]] [.f32 0x80000000], .ts 0, .none] false [] []
+def bsQ : Bytes :=
+  [17, 1, 0, 0, 0, 0, 0, 248, 127, 34, 2, 8, 1, 34, 6, 8, 2, 18, 2, 8, 7, 42, 0, 50, 8, 10, 1, 97, 21, 0, 0, 0, 128]
+/-- what `parse SQ 1 bsQ` returns -/
+def mQ' : Val := .msg 1
+  [.ph, .f64 0x7ff8000000000001, .ph,
+   .dict [.int 1, .int 2] [.msg 0 [.ph] false [] [], .msg 0 [.int 7] true [] []],
+   .f32 0, .dict [.str [97]] [.f32 0x80000000], .ph, .none] true [] []
+example : msgOkB SQ mQ = true := by decide
+example : dumpVal SQ mQ = .ok bsQ := by decide
+example : parse SQ 1 bsQ = .ok mQ' := by rfl
+example : msgEq SQ mQ mQ' = true ∧ msgEq SQ mQ' mQ = true := by decide
+example : msgEq SQ mQ mQ = true := by decide
+example : msgEq SX mX mX = true := by decide
+example : ((parse SX 0 [8, 249, 255, 255, 255, 255, 255, 255, 255, 255, 1, 18, 0, 34, 0, 42, 3, 1, 172, 2]).bind fun m' =>
+    .ok (msgEq SX mX m' && msgEq SX m' mX)) = .ok true := by decide +kernel
+-- a different float, a different map value, a value of another class: unequal
+example : msgEq SQ mQ (.msg 1 [.f32 0x3f800000, .f64 0x7ff8000000000001, .ph, .ph, .ph, .ph, .ph, .none] true [] []) = false := by
+  decide
+example : msgEq SQ mQ' (.msg 1 [.ph, .f64 0x7ff8000000000001, .ph,
+    .dict [.int 1, .int 2] [.msg 0 [.ph] false [] [], .msg 0 [.int 8] true [] []],
+    .f32 0, .dict [.str [97]] [.f32 0x80000000], .ph, .none] true [] []) = false := by decide
+example : msgEq SQ (fresh SQ 0) (fresh SQ 2) = false := by decide
+
 end Bp.C01
 
 #print axioms Bp.C01.encodable
 #print axioms Bp.C01.roundtrip_total_partial
+#print axioms Bp.C01.roundtrip_equal
+#print axioms Bp.C01.roundtrip_equal_total
